@@ -225,7 +225,7 @@ func TestFeatures(t *testing.T) {
 		Check:      checkFeatures,
 		NonTrivial: func(c featureCase) bool { f, err := schema.Unmarshal(c.Raw); return err == nil && expect(f).overrides > 0 },
 		Classes:    featureClasses,
-		Quick:      600, Thorough: 8000,
+		Quick:      600, Thorough: 6000,
 	})
 }
 
@@ -237,7 +237,7 @@ func TestFeaturesOffTarget(t *testing.T) {
 		Check:      checkFeatures,
 		NonTrivial: func(c featureCase) bool { return c.OffTarget > 0 },
 		Classes:    featureClasses,
-		Quick:      450, Thorough: 6000,
+		Quick:      450, Thorough: 4000,
 	})
 }
 
